@@ -620,9 +620,18 @@ func genHandler(t *rapid.T, depth int) handler {
 			n.block = append(n.block, node{name: "commands", args: c})
 			js["commands"] = strs(c...)
 		}
-		if rapid.Bool().Draw(t, "creds") {
+		switch rapid.IntRange(0, 5).Draw(t, "creds") {
+		case 0, 1:
 			n.block = append(n.block, node{name: "credentials", args: []string{"bob", "secret", "alice", "pw 2"}})
 			js["credentials"] = obj{"bob": "secret", "alice": "pw 2"}
+		case 2:
+			// an empty user name is an entry like any other: it still turns authentication on (nobody can use it)
+			n.block = append(n.block, node{name: "credentials", args: []string{"", "s3cret"}})
+			js["credentials"] = obj{"": "s3cret"}
+		case 3:
+			// several options add up; an empty password is a password
+			n.block = append(n.block, node{name: "credentials", args: []string{"bob", ""}}, node{name: "credentials", args: []string{"", "x", "carol", "pw"}})
+			js["credentials"] = obj{"bob": "", "": "x", "carol": "pw"}
 		}
 		return handler{n, js}
 	case "throttle":
